@@ -69,6 +69,7 @@ class Output(Tag):
         return self.node_class(
             token,
             FilteredExpression.parse(
-                self.env, TokenStream(tokenize(expr_token.value, expr_token))
+                self.env,
+                TokenStream(tokenize(expr_token.value, expr_token), parent=expr_token),
             ),
         )
